@@ -393,7 +393,7 @@ fn struct_init_block_inner(
         }
     }
 
-    if let Some(update) = &ctx.struct_attr.update {
+    if let (Some(update), false) = (&ctx.struct_attr.update, ctx.has_post_init) {
         let a = quote_action(update, None, ctx);
         fragments.push(quote!(..#a))
     }
@@ -539,13 +539,13 @@ fn render_child_fragment<F: Fn() -> TokenStream>(
     if depth.is_none() || depth.unwrap() < child_path.child_path_str.len() - 1 {
         let new_depth = depth.map_or(0, |x|x+1);
         match ctx.kind {
-            Kind::OwnedInto | Kind::RefInto => {
+            Kind::OwnedInto | Kind::RefInto if !ctx.has_post_init => {
                 let mut child_parents = ctx.input.get_attrs().child_parents_attr(&ctx.struct_attr.ty).unwrap().child_parents.iter();
                 let child_data = child_parents.find(|child_data| child_data.check_match(child_path.get_child_path_str(Some(new_depth)))).unwrap();
                 
                 render_child(&child_data.into(), fields, ctx.input.named_fields(), ctx, (child_path, new_depth), type_hint)
             },
-            Kind::OwnedIntoExisting | Kind::RefIntoExisting => render_existing_child(fields, ctx.input.named_fields(), ctx, (child_path, new_depth)),
+            Kind::OwnedInto | Kind::RefInto | Kind::OwnedIntoExisting | Kind::RefIntoExisting => render_existing_child(fields, ctx.input.named_fields(), ctx, (child_path, new_depth)),
             Kind::FromOwned | Kind::FromRef => {
                 fields.next();
                 render_line()
@@ -712,13 +712,23 @@ fn render_struct_line(
 
     match (member, attr, &ctx.kind, hint) {
         (Named(ident), None, Kind::OwnedInto | Kind::RefInto, TypeHint::Struct | TypeHint::Unspecified) =>
-            if ctx.has_post_init { quote!(obj.#ident = #obj #ident;) } else { quote!(#ident: #obj #ident,) },
+            if ctx.has_post_init {
+                let field_path = get_field_path(&f.member);
+                quote!(obj.#field_path = #obj #ident;)
+            } else {
+                quote!(#ident: #obj #ident,)
+            },
         (Named(ident), None, Kind::OwnedIntoExisting | Kind::RefIntoExisting, TypeHint::Struct | TypeHint::Unspecified) => {
             let field_path = get_field_path(&f.member);
             quote!(other.#field_path = #obj #ident;)
         },
         (Named(ident), None, Kind::OwnedInto | Kind::RefInto, TypeHint::Tuple) => 
-            quote!(#obj #ident,),
+            if ctx.has_post_init {
+                let field_path = get_field_path(&Unnamed(Index { index: idx as u32, span: Span::call_site() }));
+                quote!(obj.#field_path = #obj #ident;)
+            } else {
+                quote!(#obj #ident,)
+            },
         (Named(ident), None, Kind::OwnedIntoExisting | Kind::RefIntoExisting, TypeHint::Tuple) => {
             let index = Unnamed(Index { index: f.idx as u32, span: Span::call_site() });
             quote!(other.#index = #obj #ident;)
@@ -742,8 +752,8 @@ fn render_struct_line(
         },
         (Unnamed(index), None, Kind::OwnedInto | Kind::RefInto, TypeHint::Tuple | TypeHint::Unspecified) =>
             if ctx.has_post_init {
-                let index2 = Unnamed(Index { index: idx as u32, span: Span::call_site() });
-                quote!(obj.#index2 = #obj #index;)
+                let field_path = get_field_path(&Unnamed(Index { index: idx as u32, span: Span::call_site() }));
+                quote!(obj.#field_path = #obj #index;)
             } else {
                 let index = if ctx.impl_type.is_variant() { format_ident!("f{}", index.index).to_token_stream() } else { index.to_token_stream() };
                 quote!(#obj #index,)
@@ -779,7 +789,12 @@ fn render_struct_line(
             let field_name = attr.get_field_name_or(&f.member);
             let field_path = get_child_field_path(&f.member);
             let right_side = attr.get_action_or(Some(&field_path), ctx, || quote!(#obj #field_path));
-            if ctx.has_post_init { quote!(obj.#field_name = #right_side;) } else { quote!(#field_name: #right_side,) }
+            if ctx.has_post_init {
+                let left_field_path = get_field_path(field_name);
+                quote!(obj.#left_field_path = #right_side;)
+            } else {
+                quote!(#field_name: #right_side,)
+            }
         },
         (Named(_), Some(attr), Kind::OwnedIntoExisting | Kind::RefIntoExisting, TypeHint::Struct | TypeHint::Unspecified) => {
             let left_field_path = get_field_path(attr.get_field_name_or(&f.member));
@@ -790,7 +805,12 @@ fn render_struct_line(
         (Named(_), Some(attr), Kind::OwnedInto | Kind::RefInto, TypeHint::Tuple) => {
             let right_field_path = get_child_field_path(&f.member);
             let right_side = attr.get_action_or(Some(&right_field_path), ctx, || quote!(#obj #right_field_path));
-            quote!(#right_side,)
+            if ctx.has_post_init {
+                let left_field_path = get_field_path(&Unnamed(Index { index: idx as u32, span: Span::call_site() }));
+                quote!(obj.#left_field_path = #right_side;)
+            } else {
+                quote!(#right_side,)
+            }
         },
         (Named(_), Some(attr), Kind::OwnedIntoExisting | Kind::RefIntoExisting, TypeHint::Tuple) => {
             let left_field_path = get_field_path(&Unnamed(Index { index: idx as u32, span: Span::call_site() }));
@@ -812,7 +832,12 @@ fn render_struct_line(
             let index = if ctx.impl_type.is_variant() { &Member::Named(format_ident!("f{}", index.index)) } else { &f.member };
             let field_path = get_child_field_path(index);
             let right_side = attr.get_action_or(Some(&field_path), ctx, || quote!(#obj #field_path));
-            quote!(#right_side,)
+            if ctx.has_post_init {
+                let left_field_path = get_field_path(&Unnamed(Index { index: idx as u32, span: Span::call_site() }));
+                quote!(obj.#left_field_path = #right_side;)
+            } else {
+                quote!(#right_side,)
+            }
         },
         (Unnamed(_), Some(attr), Kind::OwnedIntoExisting | Kind::RefIntoExisting, TypeHint::Tuple | TypeHint::Unspecified) => {
             let left_field_path = get_field_path(attr.get_field_name_or(&f.member));
@@ -826,7 +851,8 @@ fn render_struct_line(
             let or = if ctx.impl_type.is_variant() { format_ident!("f{}", index.index).to_token_stream() } else { field_path };
             let right_side = attr.get_action_or(Some(&or), ctx, || quote!(#obj #or));
             if ctx.has_post_init {
-                quote!(obj.#field_name = #right_side;)
+                let left_field_path = get_field_path(field_name);
+                quote!(obj.#left_field_path = #right_side;)
             } else {
                 quote!(#field_name: #right_side,)
             }
@@ -940,8 +966,8 @@ fn render_ghost_line(ghost_data: &GhostData, ctx: &ImplContext) -> TokenStream {
     let right_side = quote_action(&ghost_data.action, None, ctx);
     let ghost_ident = &ghost_data.ghost_ident.get_ident();
     match (ghost_ident, &ctx.kind) {
-        (Named(ident), Kind::OwnedInto | Kind::RefInto) => quote!(#ident: #right_side,),
-        (Unnamed(_), Kind::OwnedInto | Kind::RefInto) => quote!(#right_side,),
+        (Named(ident), Kind::OwnedInto | Kind::RefInto) => if ctx.has_post_init { quote!(obj.#ch #ident = #right_side;) } else { quote!(#ident: #right_side,) },
+        (Unnamed(index), Kind::OwnedInto | Kind::RefInto) => if ctx.has_post_init { quote!(obj.#ch #index = #right_side;) } else { quote!(#right_side,) },
         (Named(ident), Kind::OwnedIntoExisting | Kind::RefIntoExisting) => quote!(other.#ch #ident = #right_side;),
         (Unnamed(index), Kind::OwnedIntoExisting | Kind::RefIntoExisting) => quote!(other.#ch #index = #right_side;),
         (_, _) => unreachable!("7"),
@@ -1134,9 +1160,13 @@ fn quote_try_from_trait(input: &DataType, ctx: &ImplContext, pre_init: Option<To
 fn quote_into_trait(input: &DataType, ctx: &ImplContext, pre_init: Option<TokenStream>, init: TokenStream, post_init: Option<TokenStream>) -> TokenStream {
     let QuoteTraitParams { attr, impl_attr, inner_attr, dst, src, these_gens, those_gens, impl_gens, where_clause, r } = get_quote_trait_params(input, ctx);
 
+    // With a parameterless #[parent] member the result is filled step by step, starting from the ..update value, if any
+    let obj_init = ctx.struct_attr.update.as_ref().map_or(quote!(Default::default()), |update| quote_action(update, None, ctx));
+
     let body = match post_init {
         Some(post_init) => quote! {
-            let mut obj: #dst = Default::default();
+            #pre_init
+            let mut obj: #dst = #obj_init;
             #init
             #post_init
             obj
@@ -1165,9 +1195,13 @@ fn quote_try_into_trait(input: &DataType, ctx: &ImplContext, pre_init: Option<To
     let (err_path, err_gens) = (&err_ty.path, &err_ty.generics);
     let err_ty = &quote!(#err_path #err_gens);
 
+    // With a parameterless #[parent] member the result is filled step by step, starting from the ..update value, if any
+    let obj_init = ctx.struct_attr.update.as_ref().map_or(quote!(Default::default()), |update| quote_action(update, None, ctx));
+
     let body = match post_init {
         Some(post_init) => quote! {
-            let mut obj: #dst = Default::default();
+            #pre_init
+            let mut obj: #dst = #obj_init;
             #init
             #post_init
             Ok(obj)
